@@ -545,39 +545,71 @@ func c02Reset(c *Ctx, p *Prog) {
 		c.Undecided(R, "anchor:Files.Scan", "", "not found")
 		return
 	}
-	var resetCall, readerScan *ssa.Call
+	// the opening of the next input may sit in Scan or in a helper method of Files that Scan calls
+	cands := []*ssa.Function{scan}
 	eachInstr(scan, func(_ *ssa.BasicBlock, in ssa.Instruction) {
-		if call, ok := in.(*ssa.Call); ok {
-			if objIs(calleeObj(&call.Call), bfPkg, "Reader", "Reset") {
-				resetCall = call
-			}
-			if objIs(calleeObj(&call.Call), bfPkg, "Reader", "Scan") {
-				readerScan = call
+		if ci, ok := in.(ssa.CallInstruction); ok {
+			if sc := ci.Common().StaticCallee(); sc != nil && sc.Pkg == scan.Pkg && sc.Blocks != nil && sc.Signature.Recv() != nil && recvName(sc.Signature.Recv().Type()) == "Files" {
+				cands = append(cands, sc)
 			}
 		}
 	})
+	var readerScan *ssa.Call
+	eachInstr(scan, func(_ *ssa.BasicBlock, in ssa.Instruction) {
+		if call, ok := in.(*ssa.Call); ok && objIs(calleeObj(&call.Call), bfPkg, "Reader", "Scan") {
+			readerScan = call
+		}
+	})
+	fileF := p.Field("benchfmt", "Files", "file")
+	var resetCall *ssa.Call
+	var opener *ssa.Function
+	okAll := true
+	nOpen := 0
+	for _, fn := range cands {
+		var rc *ssa.Call
+		eachInstr(fn, func(_ *ssa.BasicBlock, in ssa.Instruction) {
+			if call, ok := in.(*ssa.Call); ok && objIs(calleeObj(&call.Call), bfPkg, "Reader", "Reset") {
+				rc = call
+			}
+		})
+		for _, st := range storesToField(fn, fileF) {
+			if k, ok := st.Val.(*ssa.Const); ok && k.IsNil() {
+				continue
+			}
+			nOpen++
+			opener = fn
+			if rc == nil {
+				okAll = false
+				continue
+			}
+			resetCall = rc
+			if st.Block() == rc.Block() {
+				continue
+			}
+			reach := reachFrom(st.Block(), map[*ssa.BasicBlock]bool{rc.Block(): true})
+			if fn == scan {
+				if readerScan != nil && reach[readerScan.Block()] {
+					okAll = false
+				}
+			} else {
+				// in a helper: no way back to the caller that skips Reset
+				for b := range reach {
+					if _, isRet := b.Instrs[len(b.Instrs)-1].(*ssa.Return); isRet {
+						okAll = false
+					}
+				}
+			}
+		}
+	}
 	if resetCall == nil || readerScan == nil {
 		c.Bad(R, "Files.Scan:reset-per-file", p.pos(scan.Pos()), "Files.Scan does not reset the reader for each file")
 		return
 	}
-	// every store to Files.file of a non-nil value (a file was opened / stdin chosen) is followed by Reset before Reader.Scan
-	fileF := p.Field("benchfmt", "Files", "file")
-	okAll := true
-	nOpen := 0
-	for _, st := range storesToField(scan, fileF) {
-		if k, ok := st.Val.(*ssa.Const); ok && k.IsNil() {
-			continue
-		}
-		nOpen++
-		reach := reachFrom(st.Block(), map[*ssa.BasicBlock]bool{resetCall.Block(): true})
-		if reach[readerScan.Block()] && st.Block() != resetCall.Block() {
-			okAll = false
-		}
-	}
 	c.Check(okAll && nOpen >= 1, R, "Files.Scan:reset-per-file", p.pos(resetCall.Pos()), fmt.Sprintf("each of the %d ways a file becomes current passes Reset before the reader scans", nOpen), "after opening a file the reader can scan without having been reset: configuration of the previous file leaks into the next")
+	scanOrOpener := opener
 	// the label: Reset's variadic config carries ".file" and the label of the same input
 	hasFile := false
-	eachInstr(scan, func(_ *ssa.BasicBlock, in ssa.Instruction) {
+	eachInstr(scanOrOpener, func(_ *ssa.BasicBlock, in ssa.Instruction) {
 		if st, ok := in.(*ssa.Store); ok {
 			if s, ok := constString(st.Val); ok && s == ".file" {
 				hasFile = true
